@@ -599,7 +599,7 @@ func (x *Exec) evalAppend(st *State, e *ast.CallExpr) Val {
 		x.unsupported(e, "append with other than one element / one spread slice")
 		return s
 	}
-	var inplace, newInner, newArr, newLen string
+	var inplace, newInner, newArr, newLen, elemT string
 	if e.Ellipsis.IsValid() {
 		tt := x.eval(st, e.Args[1])
 		tl := app("sl_len", tt.T)
@@ -617,6 +617,7 @@ func (x *Exec) evalAppend(st *State, e *ast.CallExpr) Val {
 		newArr = na
 	} else {
 		v := x.eval(st, e.Args[1])
+		elemT = v.T
 		newLen = app("+", ln, "1")
 		inplace = app("<", ln, cp)
 		newInner = app("store", inner, app("at", off, ln), v.T)
@@ -644,6 +645,13 @@ func (x *Exec) evalAppend(st *State, e *ast.CallExpr) Val {
 	res := app("ite", inplace, app("mk_Slice", ref, off, newLen, cp), app("mk_Slice", r, "0", newLen, nc))
 	c := x.freshConst("appended", "Slice")
 	st.assume(app("=", c, res))
+	if es == "Int" && !e.Ellipsis.IsValid() {
+		// the set of elements grows by the appended one (both for the in-place and the reallocated case)
+		x.declare("pset", "FUN ((Array Int Int) Int Int) (Array Int Bool)")
+		na2 := x.arrComp(st, "Int")
+		st.assume(app("=", app("pset", app("select", na2.T, app("sl_arr", c)), app("sl_off", c), newLen),
+			app("store", app("pset", inner, off, ln), elemT, "true")))
+	}
 	return Val{T: c, S: "Slice", G: t}
 }
 
